@@ -202,19 +202,28 @@ def run(tier, seed):
             for f in g.factors.values(): f.weights.requires_grad_()
         qs = make_queries(rng, spec)
         seq = [rng.choice(qs) for _ in range(rng.randint(6, 10))]
+        if i % 2 == 1:
+            # cache-invalidation stream: one query of every kind, then (after an in-place weight update,
+            # forced below) the same queries again
+            kinds = {}
+            for nm, q in qs: kinds.setdefault(nm.split("[")[0], (nm, q))
+            base = list(kinds.values())
+            seq = base + [("<update>", None)] + base
         first = {}
         called = []
         for name, q in seq:
-            if rng.random() < 0.3 and g.factors:
-                if called: name, q = rng.choice(called)     # repeat an earlier query right after the update
+            forced = (name == "<update>")
+            if (forced or rng.random() < 0.3) and g.factors:
+                if called and not forced: name, q = rng.choice(called)     # repeat an earlier query right after the update
                 # the caller updates a weight tensor in place (as an optimiser step does); every later
                 # query must see the new values (no stale caches), which the fresh-copy comparison checks
-                fac = rng.choice(list(g.factors.values()))
                 with torch.no_grad():
-                    w = fac.weights
-                    (w.physical if hasattr(w, "physical") else w).mul_(0.5)
+                    for fac in (list(g.factors.values()) if forced else [rng.choice(list(g.factors.values()))]):
+                        w = fac.weights
+                        (w.physical if hasattr(w, "physical") else w).mul_(0.5)
                 first = {}
                 hist["<inplace weight update>"] = hist.get("<inplace weight update>", 0) + 1
+            if forced: continue
             hist[name.split("[")[0]] = hist.get(name.split("[")[0], 0) + 1
             called.append((name, q))
             fresh = g.copy()
